@@ -271,6 +271,9 @@ func (x *Exec) specBuiltin(c *EvalCtx, name string, args []ast.Expr) (Val, bool)
 			v = c.coerce(v, sl.Elem())
 		}
 		return scalar(Eq(cur, Store(old, BVBin("bvadd", a.T[1], idx), v.One())), types.Typ[types.Bool]), true
+	case "later": // later(p, q): object p was allocated after object q (references are handed out in increasing order)
+		a, b := c.eval(args[0]), c.eval(args[1])
+		return scalar(IntLt(b.T[0], a.T[0]), types.Typ[types.Bool]), true
 	case "arr": // arr(s): backing array reference of a slice (for aliasing statements)
 		a := c.eval(args[0])
 		return Val{T: []Term{a.T[0]}, Typ: types.Typ[types.UnsafePointer]}, true
